@@ -2,8 +2,8 @@
    Transcription of internal/core/objectheader_write.go writeToV2 / writeToV1 and of
    internal/core/objectheader.go ReadObjectHeader / parseV2Header and
    internal/core/objectheader_v1.go parseV1Header / parseV1MessagesInBlock (first block; continuation
-   blocks are followed by the Go reader only when a message of type 0x10 is present: not modelled, the
-   tie leaves such inputs out).
+   blocks / chunks are followed by the Go reader only when a message of type 0x10 is present: not modelled,
+   the tie leaves such inputs out).
    The decoders read from a file image at an address (io.ReaderAt): a read that does not fit in the
    file is an error.  No proofs here (Proofs/CodecOhdr.v). *)
 From HV Require Import Base.Prelude Base.Outcome Base.Bytes.
@@ -50,6 +50,9 @@ Fixpoint v2_loop (fuel : nat) (file : bytes) (isBE : bool) (hdr : N) (current en
           let dstart := wrap64 (current + hdr) in
           if negb (readable file dstart size) then Err else
           data <- slice file dstart (dstart + size);;
+          (* since /repo 57823d4 a continuation message (type 0x10) makes the reader parse it and queue the
+             "OCHK" chunk it points to; continuation chunks are outside this model, which stops here *)
+          if ty =? MSG_CONT then Err else
           rest <- v2_loop fuel' file isBE hdr (wrap64 (current + hdr + size)) end_;;
           Ok ({| hmp_type := ty; hmp_offset := current; hmp_data := data |} :: rest)
       else Ok []
@@ -126,13 +129,13 @@ Fixpoint v1_loop (fuel : nat) (file : bytes) (sbBE : bool) (current end_ count m
       if current <? end_ then
         if max <=? count then Ok [] else
         if end_ <? wrap64 (current + 8) then Ok [] else
-        if negb (readable file current 8) then Ok [] else          (* io.EOF: break *)
+        if negb (readable file current 8) then Err else            (* a short read is an error since /repo 2f75958 *)
         ty <- rd_end file current 2 sbBE;;
         size <- rd_end file (current + 2) 2 sbBE;;
         if size =? 0 then v1_loop fuel' file sbBE (wrap64 (current + 8)) end_ count max
         else
           if end_ <? wrap64 (current + 8 + size) then Ok [] else
-          if negb (readable file (wrap64 (current + 8)) size) then Ok [] else
+          if negb (readable file (wrap64 (current + 8)) size) then Err else
           data <- slice file (current + 8) (current + 8 + size);;
           rest <- v1_loop fuel' file sbBE (wrap64 (current + pad_to8 (8 + size))) end_ (wrap16 (count + 1)) max;;
           Ok ({| hmp_type := ty; hmp_offset := current; hmp_data := data |} :: rest)
@@ -184,7 +187,7 @@ Definition dec_ohdr (sbBE : bool) (file : bytes) (addr : N) : outcome ohdr' :=
 (* ---- well-formed values ---- *)
 
 Definition wf_msg_v2 (m : hmsg) : bool :=
-  (hm_type m <? 256) && (1 <=? blen (hm_data m)) && bytes_ok (hm_data m).
+  (hm_type m <? 256) && negb (hm_type m =? MSG_CONT) && (1 <=? blen (hm_data m)) && bytes_ok (hm_data m).
 
 (* flag bits 0-1 (chunk size width), 2 (6-byte message headers), 4 (phase change fields), 5 (times) make
    the reader expect fields the writer never writes; the other bits are carried through unchanged *)
